@@ -12,8 +12,9 @@ META = {
             "frame, trimmed by chunkedSeriesIterator). TLC checks transcription against reference and enumerates all data x query cases "
             "of the bounded model; the data of all cases is appended to one real TSDB (chunk range = model slot, so the real chunk layout "
             "is the modelled one - verified), each query is answered by a direct Querier, by the read handler with SAMPLES decoded by "
-            "FromQueryResult and with STREAMED_XOR_CHUNKS decoded by NewChunkedSeriesSet; each result is iterated fully and from a Seek at "
-            "every point of the range and compared (labels incl. external labels, timestamps, types, float values, histograms) with the "
+            "FromQueryResult and with STREAMED_XOR_CHUNKS decoded by NewChunkedSeriesSet (once over the TSDB, which trims chunks to the range "
+            "itself, once over a wrapper that serves overlapping chunks whole); each result is iterated fully and from a Seek at "
+            "every point up to the end of the range and compared (labels incl. external labels, timestamps, types, float values, histograms) with the "
             "reference carried in the case.",
     "note": "Bounded: 1 series x 6 time points (3 chunk slots x 2) x float/int-histogram (x float-histogram thorough) with thinned (all "
             "thorough) ranges; 2 series x 2 time points x 5 matcher classes x external label on/off; 2 series x 12 time points x 3 types "
